@@ -944,7 +944,7 @@ pub fn run(ctx: &Ctx) -> ! {
         vcore::finish(ctx, report, fin());
     }
     // one unit of parallel work = one workload (twin + all its crash points)
-    let nwork = ctx.pick(320u64, 6000);
+    let nwork = ctx.pick(700u64, 8000);
     let all_points = !ctx.quick();
     let c2 = ctx.clone();
     let report = vcore::run_parallel(
